@@ -13,7 +13,7 @@ from ..variants import Variant
 from .arrdom import AArr, AMask, ArrInterp, LabelKeys
 from .common import metric_registry
 from .resultrun import Tagged
-from .vennrun import Count, N, Regions, VennInterp, _rat, path_zero_set, run_kernel, universe_xy, universe_xy_skel
+from .vennrun import Count, N, Regions, VennInterp, _rat, path_substitution, path_zero_set, run_kernel, universe_xy, universe_xy_skel
 
 INFO = {
     "explanation": "VENN domain: the kernels are interpreted over sets of Venn regions and exact rational functions of the region cardinalities a=|X\\Y|, b=|Y\\X|, i=|X∩Y| (plus skeleton regions for clDice). (R06.1-3) _compute_dice_coefficient, _compute_iou, _compute_relative_volume_difference equal 2i/((a+i)+(b+i)), i/(a+b+i), ((b+i)-(a+i))/(a+i) on every path wherever the quotient is defined; guarded constants are admissible only where the quotient is undefined or equal to them; (R06.4) clDice is the harmonic mean of |Y∩Sx|/|Sx| and |X∩Sy|/|Sy| with the 2-D/3-D skeleton of the right mask; (R06.5) label selection in _Metric.__call__ and the instance wrappers: reference mask = reference array == reference label, prediction mask = membership in the prediction label(s), labels not narrowed to the array dtype, selection iff both indices given; (R06.6) each Metric member reaches, through its registered wrapper, the kernel of its own formula (end-to-end evaluation), direction flags; (R06.7) derived identities D(1+J)=2J, symmetry, ranges, D>=J, D=J=1 iff a=b=0; (R06.8) no difference of counts is taken in a possibly unsigned numpy scalar.",
@@ -71,7 +71,8 @@ def check_rational(ctx: Ctx, rule: str, f: Func, runs, want: Rat, what: str, con
             continue
         for node, msg in it.root.width_events:
             ctx.violated("R06.8", f, node, (construct_prefix or f.qual) + ":width", msg, {"expr": norm(node)})
-        w = want.subst_zero(zero)
+        sub = path_substitution(out)
+        w = want.subst_zero(zero).subst(sub) if sub else want.subst_zero(zero)
         n += 1
         if out.kind == "raise":
             ctx.decide(rule, f, out.node, construct, "raises only where the quotient is undefined", True if w.den.is_zero() else (False if out.exc != "AssertionError" else None), {"exc": out.exc, "zeroed": sorted(zero)}, nontrivial=False)
@@ -83,6 +84,8 @@ def check_rational(ctx: Ctx, rule: str, f: Func, runs, want: Rat, what: str, con
             ctx.undecided(rule, f, out.node, construct, f"kernel returns unmodelled value {got!r}")
             continue
         g = _rat(got).subst_zero(zero)
+        if sub:
+            g = g.subst(sub)
         if w.den.is_zero():
             ctx.ok(rule, f, out.node, construct, f"{what}: quotient undefined here (|.|=0 for {sorted(zero)}), any value admissible", {"returned": repr(g)}, nontrivial=False)
             continue
